@@ -168,6 +168,25 @@ fn handle_with(op: &str, a: &[&str], pf: Preferences) -> Option<String> {
                 })
                 .collect::<Vec<_>>()
                 .join(";");
+            // relations kept for linear algebra (`p^e p^e`) and relations saved during elimination (`p = l^e l^e`)
+            let filtered = std::fs::read_to_string(dir.join("relations.filtered"))
+                .unwrap_or_default()
+                .lines()
+                .map(|l| {
+                    let t = l.split_whitespace().collect::<Vec<_>>().join(",");
+                    if t.is_empty() { "e".to_string() } else { t }
+                })
+                .collect::<Vec<_>>()
+                .join(";");
+            let removed = std::fs::read_to_string(dir.join("relations.removed"))
+                .unwrap_or_default()
+                .lines()
+                .map(|l| {
+                    let (p, rest) = l.split_once('=').unwrap_or((l, ""));
+                    format!("{}={}", p.trim(), rest.split_whitespace().collect::<Vec<_>>().join(","))
+                })
+                .collect::<Vec<_>>()
+                .join(";");
             let res = match g {
                 None => "none".into(),
                 Some(g) => {
@@ -184,13 +203,15 @@ fn handle_with(op: &str, a: &[&str], pf: Preferences) -> Option<String> {
                         .collect::<Vec<_>>()
                         .join(";");
                     format!(
-                        "{} {} | {} | {} | classnumber={} | extra={}",
+                        "{} {} | {} | {} | classnumber={} | extra={} | filtered={} | removed={}",
                         g.h,
                         show_inv(&g.invariants),
                         if gens.is_empty() { "-".into() } else { gens },
                         if rl.is_empty() { "-".into() } else { rl },
                         cn.trim(),
-                        if extra.is_empty() { "-".into() } else { extra }
+                        if extra.is_empty() { "-".into() } else { extra },
+                        if filtered.is_empty() { "-".into() } else { filtered },
+                        if removed.is_empty() { "-".into() } else { removed }
                     )
                 }
             };
